@@ -181,7 +181,19 @@ pub fn burst_block() -> impl Strategy<Value = Vec<GenStep>> {
 
 /// a reply that takes very long (reply bytes withheld across a big clock jump)
 pub fn slow_reply_block() -> impl Strategy<Value = Vec<GenStep>> {
-    (issue(3), prop_oneof![Just(4_000u64), Just(6_000), Just(29_000), Just(31_000), Just(61_000), Just(3_600_000)], prop::option::of(release()), prop::option::of(issue(3))).prop_map(
+    slow_reply_block_of(issue(3).boxed())
+}
+
+/// A request whose reply is withheld for 4 s ... 1 h of virtual time (just short of and just past the
+/// round values somebody would pick for a timeout), optionally with a second request queued behind it.
+pub fn slow_reply_block_of(issue: BoxedStrategy<GenStep>) -> impl Strategy<Value = Vec<GenStep>> {
+    (
+        issue.clone(),
+        prop_oneof![Just(4_000u64), Just(6_000), Just(29_000), Just(31_000), Just(61_000), Just(119_000), Just(121_000), Just(301_000), Just(601_000), Just(3_600_000)],
+        prop::option::of(release()),
+        prop::option::of(issue),
+    )
+        .prop_map(
         |(iss, wait, partial, second)| {
             let mut v = vec![GenStep::Plain(Step::Hold), iss];
             if let Some(p) = partial {
@@ -291,7 +303,10 @@ pub fn long_session_script() -> impl Strategy<Value = Script> {
         (
             any::<u64>(),
             prop_oneof![3 => Just(SegPattern::Whole), 2 => Just(SegPattern::Lines), 1 => (2..20usize).prop_map(SegPattern::Chunk)],
-            prop_oneof![Just(0usize), Just(100), Just(257), Just(300), Just(600), Just(1100)],
+            // distinct field names per key-rich reply; the large counts arrive before the session's
+            // first notification (a per-connection name table that changes behaviour once it holds
+            // thousands of names must not change how later notifications are read)
+            prop_oneof![4 => Just(0usize), 4 => Just(100), 4 => Just(257), 4 => Just(300), 4 => Just(600), 4 => Just(1100), 2 => Just(4100), 2 => Just(5000), 1 => Just(9000), 1 => Just(66_000)],
             prop::collection::vec(
                 prop_oneof![
                     6 => race_block(),
@@ -302,6 +317,7 @@ pub fn long_session_script() -> impl Strategy<Value = Script> {
             ),
         )
             .prop_map(|(seed, seg, keys, blocks)| {
+                let seg = if keys > 2000 { SegPattern::Whole } else { seg };
                 let mut gen = Vec::new();
                 // the key-rich reply (fresh names every time) recurs every 20 blocks
                 let rich = |round: usize| {
@@ -310,7 +326,7 @@ pub fn long_session_script() -> impl Strategy<Value = Script> {
                     GenStep::Issue { caller: 0, kind: 0, replies: vec![ReplySpec::Ok { fields, binary: None }] }
                 };
                 for (i, b) in blocks.into_iter().enumerate() {
-                    if keys > 0 && i % 20 == 0 {
+                    if keys > 0 && i % 20 == 0 && (keys <= 2000 || i % 60 == 0) {
                         gen.push(rich(i / 20));
                     }
                     gen.extend(b);
